@@ -97,7 +97,7 @@ class Monitor(object):
             detail = detail()
         if callable(key):
             key = key()
-        ck = "%s|%s" % (clause, key if key else "")
+        ck = "%s\x1f%s" % (clause, key if key else "")
         n = self.devcount.get(ck, 0)
         self.devcount[ck] = n + 1
         if n < MAX_STORED_PER_KEY:
